@@ -18,6 +18,89 @@ ASSUMPTIONS = ['DECLINED: key ordering on disk, depth uniformity, iteration resu
 TRUSTED = ['rustc MIR construction (nightly)', 'pdb-facts driver', 'rule engine /verif/rules', 'anchor tables in props/C04.py']
 
 
+def reseek_agrees_with_position(ctx, DIRECT):
+    """seed C04-reseek-excludes-sought-key. The iterator remembers where it stands as LastKey: At(k) - k was handed out -,
+    Seeked(k) - the client asked for k, nothing was handed out yet -, Start, End. When the tree was re-opened the cursor is
+    rebuilt from that state, and the kind of seek has to agree with it: after At(k) the key is excluded, after Seeked(k) the seek
+    is the one `seek` itself made when it established the state (Include: otherwise k is skipped in both directions)."""
+    F = ctx.F
+    LK, ST = 'btree::iter::LastKey', 'btree::iter::SeekTo'
+    if LK not in F.adts or ST not in F.adts:
+        ctx.ob('2p0 position-state-anchor', 'anchor', 'btree::iter', 'the enums LastKey and SeekTo exist', False, '')
+        return
+    names = [v['name'] for v in F.adts[LK]['variants']]
+
+    def seekto_of(b, bi):
+        """the SeekTo variant(s) handed to the call in block bi (None: the call takes no SeekTo)"""
+        t = b.term(bi)
+        for a in t['a']:
+            pl = op_place(a)
+            if pl is None or 'SeekTo' not in str(b.locals[pl[0]]):
+                continue
+            sl = backward_slice(b, [pl])
+            vs = set(x['r']['ak'].split('::')[-1] for l in sl.locals for (_, _, kind, x) in b.defs().get(l, []) if kind == 'assign' and x['r']['k'] == 'agg' and str(x['r']['ak']).startswith('Adt:' + ST + '::'))
+            if sl.params and not vs:
+                vs = {'<parameter>'}
+            return vs
+        return None
+
+    def is_seek(b, bi):
+        t = b.term(bi)
+        return t['k'] == 'call' and bi in b.normal_blocks() and any(re.search(r'^btree::iter::.*::seek\w*$', n) for n in call_names(t))
+    bodies = [b for pth, b in sorted(F.bodies.items()) if pth.startswith('btree::iter::BTreeIterator') and '{closure' not in pth]
+    # how a state is established together with a seek (LastKey::Seeked(k) with SeekTo::Include(k) in `seek`)
+    est = {}
+    for b in bodies:
+        setv = set()
+        for bi in b.normal_blocks():
+            for st in b.blocks[bi]['s']:
+                if st['k'] == 'assign' and st['p'] and isinstance(st['p'][-1], str) and st['p'][-1].endswith('.BTreeIterator.last_key') and st['r']['k'] == 'use' and op_local(st['r']['a'][0]) is not None:
+                    for (_, _, kind, x) in b.defs().get(op_local(st['r']['a'][0]), []):
+                        if kind == 'assign' and x['r']['k'] == 'agg' and str(x['r']['ak']).startswith('Adt:' + LK + '::'):
+                            setv.add(x['r']['ak'].split('::')[-1])
+        seeks = [seekto_of(b, bi) for bi in b.normal_blocks() if is_seek(b, bi)]
+        seeks = [v for v in seeks if v and '<parameter>' not in v]
+        if len(setv) == 1 and len(seeks) == 1:
+            est.setdefault(next(iter(setv)), set()).update(seeks[0])
+    n = 0
+    for b in bodies:
+        opens = [bi for bi in b.call_sites('btree::btree::BTree::open', 're:BTreeTable::with_locked$', *DIRECT) if bi in b.normal_blocks()]
+        if not opens:
+            continue
+        after = b.reachable_from([x for o in opens for x in b.succ(o)])
+        for sw in sorted(after):
+            t = b.term(sw)
+            d = lib.switch_def(b, sw) if t['k'] == 'switch' else None
+            if not d or d[2] != 'assign' or d[3]['r']['k'] != 'discr' or LK not in str(b.locals[d[3]['r']['p'][0]]) or '.BTreeIterator.last_key' not in backward_slice(b, [d[3]['r']['p']]).fields:
+                continue
+            n += 1
+            for v, tg in zip(t['vals'], t['ts']):
+                if v >= len(names):
+                    continue
+                # the first seek(s) reached from this arm
+                seen, stack, first = set(), [tg], []
+                while stack:
+                    x = stack.pop()
+                    if x in seen or x not in b.normal_blocks():
+                        continue
+                    seen.add(x)
+                    if is_seek(b, x):
+                        first.append(x)
+                        continue
+                    stack.extend(b.succ(x))
+                got = set()
+                for x in first:
+                    got |= (seekto_of(b, x) or set())
+                want = {'Exclude'} if names[v] == 'At' else est.get(names[v])
+                if not want or not got:
+                    continue
+                ctx.ob('2p reseek-agrees-with-position %s %s' % (lib.strip_closures(b.path), names[v]), 'K9-agreement', b.path,
+                       'after a re-open the cursor is rebuilt with the seek that matches the remembered position: a key that was handed out (At) is excluded, a key that was only sought (Seeked) is sought again the way `seek` sought it',
+                       got == want, 'position %s is re-sought with SeekTo::%s, the state means SeekTo::%s' % (names[v], '/'.join(sorted(got)), '/'.join(sorted(want))), b.loc(sw))
+    ctx.ob('2p0 position-state-anchor', 'anchor', 'btree::iter', 'a match on the remembered position follows the re-open of the tree, and `seek` establishes Seeked together with its SeekTo',
+           n >= 1 and 'Seeked' in est, 'matches %d, established %s' % (n, {k: sorted(v) for k, v in est.items()}))
+
+
 def run(ctx):
     shared.counted_changes_are_all_applied(ctx, '9c')
     F = ctx.F
@@ -55,7 +138,9 @@ def run(ctx):
     DIRECT = sorted(p_ for p_, b_ in F.bodies.items() if p_.startswith('btree::iter::') and '{closure' not in p_ and b_.call_sites('btree::btree::BTree::open', 're:BTreeTable::with_locked$')
                     and lib.sites_reaching(b_, ['btree::btree::BTree::open']) and any(n == 'record_id' and 1 <= l <= b_.argc for l, n in b_.names.items()))
     REFRESHERS = sorted(p_ for p_, b_ in F.bodies.items() if p_.startswith('btree::iter::BTreeIterator') and '{closure' not in p_
-                        and (p_ in DIRECT or b_.call_sites(*DIRECT) if DIRECT else False) and any(n == 'record_id' and 1 <= l <= b_.argc for l, n in b_.names.items()))
+                        and (p_ in DIRECT or b_.call_sites(*DIRECT) if DIRECT else False) and any(n == 'record_id' and 1 <= l <= b_.argc for l, n in b_.names.items())
+                        # (a helper that is handed the tree alone cannot move the cursor's id: its callers, which hold the cursor, do)
+                        and any(re.search(r'BTreeIterator|BTreeIterState|BtreeIterBackend', str(b_.locals[l])) for l in range(1, b_.argc + 1)))
     ctx.ob('2a0 refresh-functions', 'anchor', 'btree::iter::BTreeIterator', 'the iterator has at least two functions that re-open the tree when the record id moved (stepping and seeking)', len(REFRESHERS) >= 2 and len(DIRECT) >= 1, '%s / %s' % (REFRESHERS, DIRECT))
     # the two record ids move together: the tree remembers the record it was opened for (BTree.record_id, compared above), the cursor
     # state remembers the record its position belongs to (BTreeIterState.record_id, compared by iter_inner to discard a parked
@@ -84,6 +169,7 @@ def run(ctx):
         ctx.ob('2r cursor-record-id-follows-the-reopened-tree %s' % fn, 'K1-must-pass', fn,
                'every success path on which the tree was re-opened for a new record id also stores that id in the cursor state (BTreeIterState.record_id)',
                bool(starts) and bad is None, 'no re-open site' if not starts else 'success path after a re-open without the store: %s' % bad)
+    reseek_agrees_with_position(ctx, DIRECT)
     for fn in DIRECT:
         b = ctx.body(fn)
         if not b:
